@@ -42,6 +42,8 @@ def _sample(job):
         return rec
     if X.min() < 0 or X.max() > 1:
         rec['exact'].append('values-outside-unit-interval')
+    if n < 100:
+        return rec
     eps = math.sqrt(math.log(2.0 / ALPHA) / (2.0 * n))
     for j in range(2):
         x = np.sort(X[:, j])
@@ -75,6 +77,7 @@ def run(ctx):
     # Clayton samples through the closed-form inverse, so a much larger n is affordable: the generic sampling path
     # (uniform draws, column order, clipping) is then resolved to ~0.01
     jobs = [(fam, tau, ctx.seed * 100 + s, n * 16 if fam == 'Clayton' else n) for fam in O.FAMS for tau in taus[fam] for s in seeds]
+    jobs += [(fam, taus[fam][1], ctx.seed * 100 + 50 + k, k) for fam in O.FAMS for k in (1, 2, 3)]      # tiny requests: exact clauses only
     jobs.sort(key=lambda j: j[0] == 'Clayton')
     with Pool(16) as pool:
         recs = pool.map(_sample, jobs, chunksize=1)
@@ -95,6 +98,6 @@ def run(ctx):
                 'joint': 'empirical joint CDF differs from cumulative_distribution'}[name]
         ctx.violation('C09|%s|%s|%s' % (r['fam'], name.rstrip('01') if name.startswith('ks') else name, 'neg' if r['tau'] < 0 else 'pos'),
                       '%s: %s at tau=%.2f seed=%d: observed %.4f expected %.4f band %.4f' % (r['fam'], what, r['tau'], r['seed'], *r['stats'][name]), r)
-    ctx.extra['max_stat_over_band'] = max(abs(o - e) / b for r in recs for (o, e, b) in r['stats'].values()) if recs else 0
+    ctx.extra['max_stat_over_band'] = max([abs(o - e) / b for r in recs for (o, e, b) in r['stats'].values()] or [0])
     ctx.sample({k: recs[0][k] for k in ('fam', 'tau', 'seed', 'n', 'stats')})
     ctx.exhaustive = False
